@@ -28,6 +28,7 @@ pub const SPEC: PropSpec = PropSpec {
     ],
     floors: &[
         ("histories.deep_backlog", 2_000, 50_000),
+        ("clock.jump_between_operations", 50_000, 1_000_000),
         ("max.outstanding_per_link", 1_000, 1_200),
         ("ack.path.skip", 1_000, 50_000),
         ("ack.path.fast", 1_000, 50_000),
@@ -205,6 +206,12 @@ pub fn run_history(rng: &mut Rng, rep: &mut Report, direct_core: bool) {
 
     for _ in 0..n_ops {
         h.now += rng.below(21);
+        // arbitrary spacing: now and then seconds to a minute pass between two operations (added after seeded defect
+        // C02e, an age-based prune of the packet log that only long-outstanding entries can show)
+        if rng.chance(1, 60) {
+            h.now += *rng.pick(&[1_000u64, 4_000, 9_999, 10_001, 12_000, 60_000]);
+            rep.count("clock.jump_between_operations");
+        }
         rt::set_now(h.now);
         let now = h.now;
         let w = if deep { rng.weighted(&[60, 2, 8, 8, 2, 3, 17]) } else { rng.weighted(&[50, 14, 10, 8, 4, 4, 3]) };
